@@ -70,6 +70,12 @@ def damage(data, fault):
     return data
 
 
+# index-valued per-type lists: a 0 at a counted position is an entry the accessor does not actually return
+PHANTOM_LISTS = ("interrogate_type_get_constructor", "interrogate_type_get_element", "interrogate_type_get_method", "interrogate_type_get_make_seq",
+                 "interrogate_type_get_cast", "interrogate_type_get_nested_type", "interrogate_type_get_derivation",
+                 "interrogate_function_c_wrapper", "interrogate_function_python_wrapper")
+
+
 class History:
     """Executes one plan against the real library and judges every step."""
 
@@ -471,6 +477,7 @@ class History:
     def _sweep(self, real):
         nxt = self.W.helper.dbhelper_next_index()
         idxs = list(range(-2, nxt + 3)) + EXTREMES
+        produced_by_generator = "real" in self.plan["universe"] and not self.plan.get("faults")
         sigs = self.api.sigs
         for name in sorted(sigs):
             if name in capi.SPECIAL:
@@ -497,6 +504,12 @@ class History:
                             got = self.call(name, i, n)
                             if rec is not None and 0 <= n < cnt:
                                 want = exp(rec, n)
+                                if got == 0 and name in PHANTOM_LISTS and produced_by_generator:
+                                    # "each enumeration count equals the number of entries its accessor actually returns":
+                                    # in a database written by interrogate itself no counted position may hold "no entity"
+                                    self.v("C20", "phantom-entry", {"op": name, "kind": "zero-inside-count"},
+                                           "%s(%d,%d) = 0 although the count is %d (database produced by interrogate)" % (name, i, n, cnt))
+                                    break
                                 if not _same(got, want):
                                     self.v("C12" if len(self.dbs) == 1 else "C13", "query-vs-record", {"op": name, "kind": "value"}, "%s(%d,%d) = %r but the record holds %r" % (name, i, n, _short(got), _short(want)))
                                     break
